@@ -67,9 +67,25 @@ def main():
         if not case:
             print("replay file names no concrete input: broken obligation was %r" % rp.get("broken"))
             sys.exit(1)
-        il = vlib.run_one(vlib.HARNESS_BIN, case)
-        ml = vlib.run_one(vlib.MODEL_BIN, case)
-        why = mod.oracle(case, il, ml)
+        if hasattr(mod, "pre_build"):
+            try:
+                mod.pre_build(a)
+            except Broken as b:
+                print("note: %s" % b.what)
+        if hasattr(mod, "run_both"):
+            ils, mls = mod.run_both([case], prop)
+            il, ml = ils[0], mls[0]
+        else:
+            il = vlib.run_one(vlib.HARNESS_BIN, case)
+            ml = vlib.run_one(vlib.MODEL_BIN, case)
+        why = mod.oracle(case, il, ml) if not case.startswith("features ") else None
+        if hasattr(mod, "post"):
+            try:
+                for c2, w2 in mod.post([case], [il], [ml], a):
+                    if c2 == case or case.startswith("features "):
+                        why = why or w2
+            except Broken as b:
+                why = why or b.what
         print("case : %s\nimpl : %s\nmodel: %s\noracle: %s" % (case[:2000], il[:2000], ml[:2000], why or "holds"))
         if why:
             print("VIOLATION property=%s replay=%s" % (prop, a.replay))
@@ -87,7 +103,7 @@ def main():
         if bad:
             raise Broken("forbidden construct in the Coq development", "\n".join(bad))
         pfile = "Properties/%s.v" % prop
-        if not a.no_proof:
+        if not a.no_proof and not getattr(mod, "NO_PROOF", False):
             vlib.build_coq(["Properties/%s.vo" % prop] + list(getattr(mod, "EXTRA_VO", [])))
             thms = vlib.theorems_of(pfile)
             axioms = vlib.print_assumptions(prop, "Properties." + prop, thms)
@@ -100,6 +116,8 @@ def main():
                     raise Broken("theorem %s depends on axioms outside the allow-list" % t, ", ".join(extra))
         cov["obligations"] = len(thms)
         cov["discharged"] = len(thms)
+        if hasattr(mod, "EXPLANATION"):
+            cov["explanation"] = mod.EXPLANATION
         cov["theorems"] = thms
         cov["axioms"] = {t: axioms.get(t, []) for t in thms}
     except Broken as b:
